@@ -192,6 +192,10 @@ func c04Event(c *ctx, g orb.Geometry) (string, *wkbIntern, map[string]interface{
 		if c04PrevBytes != nil && string(c04PrevBytes) != c04PrevText {
 			c.emit(map[string]interface{}{"k": "aliased", "fn": "wkt.Marshal", "was": c04PrevText, "now": string(c04PrevBytes)})
 		}
+		// ... and they are the caller's: overwritten now, which must not show in anything encoded later
+		for i := range c04PrevBytes {
+			c04PrevBytes[i] = '#'
+		}
 		c04PrevBytes, c04PrevText = b, string(b)
 		if g == nil {
 			return
